@@ -1,6 +1,6 @@
 PROP_ID = "C04"
 PROP = dict(
-    imports=["Acl.Glob", "Server.KV", "Server.DB", "Server.FSMap", "Server.FS", "Corr.Run_DB", "Corr.Run_C04"],
+    imports=["Acl.Glob", "Server.KV", "Server.DB", "Server.FSMap", "Server.FS", "Corr.Run_DB", "Corr.Run_C04", "Props.Chain_Server"],
     case_type="Run_C04.case", check="Run_C04.check", shrink_field="ops",
     technique=("Rocq proof (file-system semantics with kill points between and inside operations, verified monitors atomic_replace_ok / error_ok, "
                "model of atomicfile.WriteFile under every single fault; kv.go mutate/undo model: every rollback branch restores exactly the previous state) "
